@@ -6,7 +6,9 @@ from . import gen, htmlcheck
 from .props import Prop, Result, compare_states, register, run_session, same_outcome, short, step_kwargs
 from .props_impl import DEFAULT_REPLACEMENT, NONZERO_POLICY_MODES, clean
 
-PLAIN = ['alpha', 'beta', 'gamma', 'x', 'y1', 'Foo', 'Zed', 'it', 'is', 'ok', '42', 'né', 'Ωmega']
+PLAIN = ['alpha', 'beta', 'gamma', 'x', 'y1', 'Foo', 'Zed', 'it', 'is', 'ok', '42', 'né', 'Ωmega',
+         # characters that str.splitlines() takes for line boundaries and the reader does not: they are text inside a word
+         'al\u2028pha', 'be\x0cta', 'ga\x85ma', 'de\x1clta', 'ep\x0bsi', 'ze\u2029ta']
 URLWORDS = ['http://example.com/', 'https://b.org/x?y=1&z=2', 'http://c.net/p#frag', 'http://d.io/a/b', 'ftp://files/x.y']
 QUOTE_TAGS = {'**': 'strong', '*': 'em', '__': 'strong', '_': 'em', '``': 'code', '`': 'code', '~~': 'del'}
 
@@ -233,7 +235,11 @@ class C07(Prop):
                  ('<http://a.com/|*cap* it> [c](http://b.org/) ^[d](http://c.net/)',
                   '<a href="http://a.com/"><em>cap</em> it</a> <a href="http://b.org/">c</a> <a href="http://c.net/" target="_blank">d</a>'),
                  ('a_b_c 1_2 x', 'a_b_c 1_2 x'),
-                 ('`<http://a.com/>` &copy;', '<code>&lt;http://a.com/&gt;</code> &copy;')]
+                 ('`<http://a.com/>` &copy;', '<code>&lt;http://a.com/&gt;</code> &copy;'),
+                 # F39: a double quote is text; it is an entity only inside the attribute value that a group is copied into
+                 ('x "\\` y "z"', 'x "\\` y "z"'),
+                 ('<http://x.y/"q> <a"b@c.de>', '<a href="http://x.y/&quot;q">http://x.y/"q</a> <a href="mailto:a&quot;b@c.de">a"b@c.de</a>'),
+                 ('<image:a"b|c"d> "e"', '<img src="a&quot;b" alt="c&quot;d"> "e"')]
         for src, exp in fixed:
             for mode in (0, 1):
                 out.append({'src': src, 'expected': '<p>%s</p>' % exp, 'safeMode': mode, 'htmlReplacement': None, 'kinds': ['fixed', 'fixed2']})
@@ -258,6 +264,21 @@ class C07(Prop):
                 if mode != 0 or rng.random() < 0.3:
                     # defined by an earlier, trusted call of the same session
                     pre, defs = '\n'.join(defs), []
+            if rng.random() < 0.06 and not extra:
+                # lone delimiters, escaped: the backslash that touches the delimiter goes, one before it is text (the delimiter
+                # characters are all different, and nothing else in the paragraph is a quote)
+                ds = rng.sample(['*', '_', '`', '~~'], rng.randint(1, 3))
+                ds = [d * 2 if d != '~~' and rng.random() < 0.5 else d for d in ds]
+                ws, hs = [], []
+                for d in ds:
+                    w = rng.choice(PLAIN)
+                    two = rng.random() < 0.5
+                    ws.append('%s %s%s' % (w, '\\\\' if two else '\\', d))
+                    hs.append('%s %s%s' % (esc(w), '\\' if two else '', d))
+                w = rng.choice(PLAIN)
+                yield {'src': ' '.join(ws) + ' ' + w, 'expected': '<p>' + ' '.join(hs) + ' ' + esc(w) + '</p>', 'safeMode': mode, 'htmlReplacement': repl,
+                       'kinds': ['escaped-delimiter', 'word'], 'pre': None}
+                continue
             g = Inline(rng, mode, repl if repl is not None else DEFAULT_REPLACEMENT, extra)
             s, h = g.seq(3, '', 1, 4)
             # running text: the line starts with a word so that it is not a line-level element - or with an inline tag in any
@@ -633,15 +654,21 @@ class ListGen:
     def attached(self):
         rng = self.rng
         k = rng.randrange(4)
+        # every spelling of the delimiters (a block attached without a blank line is recognised by its opening line alone)
         if k == 0:
             self.kinds.add('attached-code')
-            return ['```', 'code <x>', '```'], '<pre><code>code &lt;x&gt;</code></pre>', False
+            d = rng.choice(['```', '``', '````', '--', '---'])
+            return [d, 'code <x>', d], '<pre><code>code &lt;x&gt;</code></pre>', False
         if k == 1:
             self.kinds.add('attached-quote')
-            return ['""', 'quoted', '""'], '<blockquote><p>quoted</p></blockquote>', False
+            d = rng.choice(['""', '""', '"""', '>>', '>>', '>>>'])
+            c = rng.choice(['', '', ' qc'])
+            return [d + c, 'quoted', d], '<blockquote%s><p>quoted</p></blockquote>' % (' class="qc"' if c else ''), False
         if k == 2:
             self.kinds.add('attached-division')
-            return ['.....', 'divided', '.....'], '<p>divided</p>', False
+            d = rng.choice(['.....', '..', '...'])
+            c = rng.choice(['', '', 'dc'])      # (no blank before the class name: `.. dc` is a numbered item)
+            return [d + c, 'divided', d], ('<div class="dc"><p>divided</p></div>' if c else '<p>divided</p>'), False
         self.kinds.add('attached-indented')
         return ['', '  indented text', ''], '<pre><code>indented text</code></pre>', True
 
